@@ -509,7 +509,7 @@ def main():
                 if res["status"] == "inconclusive":
                     exit_code = max(exit_code, 2) if exit_code != 1 else 1
                     lines.append("INCONCLUSIVE property=%s harness=%s %s" % (prop, h.name,
-                                                                              "; ".join(res["notes"])[:600]))
+                                                                              "; ".join(sorted(res["notes"], key=lambda n: n.startswith("ignored")))[:600]))
                     continue
                 # fail: replay first failing obligation (prefer explicit assertions)
                 viol = res.pop("_viol")
